@@ -247,6 +247,20 @@ def finish(F, until):
         c15_final(F)
     if "C10" in F.props and until is None and _fair(F):
         c10_quiescence(F)
+    if "C03" in F.props and until is not None and _fair(F):
+        # runs with fleets are cut at a time bound (the fleet's periodic timer never lets the event queue drain): an item may still be inside a
+        # fleet at the end only if it was loaded less than one waiting period plus one round trip ago - otherwise it is stuck there
+        now = F.env.now
+        for e in F.edges:
+            if e.__class__.__name__ != "Fleet" or not isinstance(getattr(e, "delay", None), (int, float)):
+                continue
+            limit = e.delay + 2 * e.transit_delay
+            for r in F.items.values():
+                if r.loc == ("edge", e) and not any(r.obj is x for x in F.store_of(e).ready_items):
+                    t_in = next((h[1] for h in reversed(r.hist) if h[0] == "put" and h[2] is e), None)
+                    F.ctx.hit("C03:fleet-residence-checked")
+                    if t_in is not None and now - t_in > limit + 2e-5:
+                        F.soft("C03:item-still-loaded-on-a-fleet-longer-than-waiting-period-plus-round-trip", {"item": repr(r.obj)})
     if "C03" in F.props and until is None and _fair(F):
         # finite input, run to quiescence: everything generated was received or discarded unless something is blocked
         gen = sum(n.stats["num_item_generated"] for n in F.nodes if n.__class__.__name__ == "Source")
